@@ -78,12 +78,16 @@ class ODEs:
         self.rebound = rebound
 
     def __call__(self, task):
-        integ, kind, eps = task
+        integ, kind, eps = task[:3]
+        dt0 = task[3] if len(task) > 3 else None        # initial step (adaptive schemes: the first proposed step then differs from the first step done)
+        sgn = task[4] if len(task) > 4 else 1
         rebound = self.rebound
         rb.quiet()
         G, b, P = lattice.system("S3")
-        sim, _ = lattice.make_sim(rebound, {"integ": integ, "o": ({"eps_rel": eps, "eps_abs": eps} if integ == "bs" else {}), "sys": "S3", "tp": 0, "dtsign": 1})
-        T = 2 * P
+        sim, _ = lattice.make_sim(rebound, {"integ": integ, "o": ({"eps_rel": eps, "eps_abs": eps} if integ == "bs" else {}), "sys": "S3", "tp": 0, "dtsign": sgn})
+        if dt0 is not None:
+            sim.dt = sgn * dt0
+        T = sgn * 2 * P
         if kind == "harmonic":
             def der(ode, yDot, y, t):
                 yDot[0] = y[1]
@@ -119,7 +123,7 @@ class ODEs:
         if exact is None:
             # reference: append the quadrature to the longdouble N-body reference
             N = len(b)
-            yref = refmath.nbody_reference(G, b, T, extra=lambda t, yy: np.array([yy[3 * 1 + 0]]), extra0=[0.0])
+            yref = refmath.nbody_reference(G, b, T, extra=lambda t, yy: np.array([yy[3 * 1 + 0]]), extra0=[0.0])      # (T carries the direction)
             exact = [float(yref[6 * N])]
         err = max(abs(g - x) for g, x in zip(got, exact)) / (1 + max(abs(x) for x in exact))
         return err
@@ -201,6 +205,15 @@ def run(ctx):
                     if ctx.tier == "quick" and (tp, sgn) not in ((0, 1), (0, -1), (1, 1), (2, -1)):
                         continue
                     cfgs.append({"integ": integ, "o": o, "sys": sysn, "tp": tp, "dtsign": sgn})
+    if ctx.tier == "quick":
+        # G != 1 (system S4G) at least for the schemes that evaluate extra force-like terms (jerk of the modified kick, correctors)
+        # and for one representative of every other family
+        seen_fam = set()
+        for integ, o in pts:
+            special = (integ == "whfast" and (o.get("kernel", "default") != "default" or o.get("corrector", 0))) or (integ == "saba" and str(o.get("type", "")).startswith("c"))
+            if special or integ not in seen_fam:
+                seen_fam.add(integ)
+                cfgs.append({"integ": integ, "o": o, "sys": "S4G", "tp": 0, "dtsign": 1})
     cfgs = ctx.shuffled(cfgs)
     ctx.note("configurations: %d" % len(cfgs))
     res = pool.run_tasks(Run(rebound, refs), cfgs, timeout=120, chunk=8, progress=lambda d, n: ctx.note("configurations %d/%d" % (d, n)))
@@ -285,6 +298,13 @@ def run(ctx):
         for kind in ("harmonic", "timedep") + (("coupled",) if integ == "bs" else ()):
             for eps in ((1e-8, 1e-11) if integ == "bs" else (1e-8,)):
                 ot.append((integ, kind, eps))
+    for integ in ("ias15", "bs"):
+        for kind in ("harmonic", "timedep"):
+            for dt0 in (1e-3, 3e-2):
+                for sgn in (1, -1):
+                    ot.append((integ, kind, 1e-8, dt0, sgn))
+    for integ in ("ias15", "whfast"):
+        ot.append((integ, "harmonic", 1e-8, None, -1))
     ores = pool.run_tasks(ODEs(rebound), ot, timeout=120, chunk=1)
     ode_err = {}
     for t, r in zip(ot, ores):
@@ -296,8 +316,9 @@ def run(ctx):
         bound = 3e3 * t[2]
         if t[1] == "coupled" and t[0] not in ("bs", "ias15"):
             bound = max(bound, 1e-3)      # the N-body state it reads has the integrator's own error
-        if r[1] > bound:
-            ctx.violation("ode-accuracy:%s:%s" % (t[0], t[1]), "user ODE '%s' advanced together with %s (eps %g): error %.3g, allowed %.3g" % (t[1], t[0], t[2], r[1], bound), {"ode": list(t)})
+        if not (r[1] <= bound):
+            extra = "" if len(t) <= 3 else " (initial step %s, %s)" % (t[3], "forward" if t[4] > 0 else "backward")
+            ctx.violation("ode-accuracy:%s:%s" % (t[0], t[1]), "user ODE '%s' advanced together with %s (eps %g)%s: error %.3g, allowed %.3g" % (t[1], t[0], t[2], extra, r[1], bound), {"ode": list(t)})
     for kind in ("harmonic", "timedep", "coupled"):
         a, bb = ode_err.get(("bs", kind, 1e-8)), ode_err.get(("bs", kind, 1e-11))
         if a is not None and bb is not None and a > 1e-11 and bb > a * 0.5 and bb > 1e-10:
